@@ -26,7 +26,8 @@ META = dict(
   max_inconclusive=dict(quick=0, thorough=0),
 )
 
-QUICK = ["one_view_charged", "one_view_pair", "one_view_eam", "one_view_fs", "two_views_pair", "two_views_eam", "two_views_fs"]
+QUICK = ["one_view_charged", "one_view_pair", "one_view_eam", "one_view_fs", "two_views_pair", "two_views_eam", "two_views_fs",
+         "two_tabs_eam", "two_tabs_fs", "two_tabs_pair", "two_tabs_eam_after_plain", "two_tabs_fs_after_plain", "two_tabs_pair_after_plain"]
 
 
 def xh_case(name, timeout):
@@ -149,7 +150,7 @@ def differential_case(model, target):
 
 def cases(tier, seed=0):
   q = tier == "quick"
-  cs = [Case("xh %s" % n, xh_case, name=n, timeout=90 if q else 300) for n in QUICK]
+  cs = [Case("xh %s" % n, xh_case, name=n, timeout=(240 if n.startswith("two_tabs") else 90) if q else 400) for n in QUICK]
   if not q:
     import xh.c13_filter as xf
     cs += [Case("xh %s" % n, xh_case, name=n, timeout=600) for n in xf.THOROUGH]
